@@ -94,6 +94,16 @@ def evaluate(case):
             if flat != c:
                 return {'key': f'all_edits_ne_total @ {type(e).__name__} : {feature(e, case)}',
                         'detail': f'sum over get_all_edits()={flat}, refined top-level edit={c}'}, None
+            # view 4: a diff tree is still the first document - comparing it (a second generation) with the second
+            # document costs the same, and with the first document nothing
+            gen2 = d.diff(pairspace.build(kind, case['b'], opt)).edited_cost()
+            if gen2 != c:
+                return {'key': f'second_generation_cost_differs @ {type(d).__name__.replace("Edited", "")}.diff of a diff tree : {kind}',
+                        'detail': f'A.diff(B).diff(B).edited_cost()={gen2}, A.diff(B).edited_cost()={c}'}, None
+            back = d.diff(pairspace.build(kind, case['a'], opt)).edited_cost()
+            if back != 0:
+                return {'key': f'second_generation_cost_differs @ {type(d).__name__.replace("Edited", "")}.diff of a diff tree : {kind}, against the first document',
+                        'detail': f'A.diff(B).diff(A).edited_cost()={back}'}, None
             return None, h(tree)
     except CaseTimeout:
         return {'key': f'timeout @ diff : {kind} dict={opt[0]}, lists={opt[1]}', 'detail': f'> {CASE_TIMEOUT}s'}, None
